@@ -323,6 +323,7 @@ package decode
 //@   requires [index-in-range] (and (bvsle (int 0) *index) (bvslt *index (int 64)))
 //@   modifies m.Palette tr.color.Model
 //@   ensures [C14.index] (= m.Palette (store (old m.Palette) *index (select m.Palette *index)))
+//@   ensures [C14.colorat.value] (= (select m.Palette *index) (ite (= (if.tid *c) (typeid color.RGBA)) (ifaceval color.RGBA *c) (color.toRGBA8 *c)))
 
 //@ contract Disassemble$1
 //@   requires [C11.hex.le4 C02.hex.le4] (bvule (len b) (int 4))
